@@ -97,3 +97,19 @@ Theorem C17_source_merge_within_spec : forall src g a b,
   mw_spec_ok g (src a b false) (g_merged_fetch_forward src g a b) = true.
 Proof. intros src g a b Hg H1 H2 H3. rewrite g_merged_fetch_forward_eq. apply mw_spec; assumption. Qed.
 Print Assumptions C17_source_merge_within_spec.
+
+(* ---- buffer() rejects negative amounts, at every level of a composition ---- *)
+From CG Require Import Model.Slice Proofs.SliceP.
+
+Theorem C17_buffer_rejects_negative : forall e b a, b < 0 \/ a < 0 -> buffer_ e b a = inl ValueError.
+Proof. exact buffer_rejects_negative. Qed.
+Print Assumptions C17_buffer_rejects_negative.
+
+Theorem C17_buffer_accepts_nonnegative : forall e b a, 0 <= b -> 0 <= a -> buffer_ e b a = inr (Buf e b a).
+Proof. exact buffer_accepts_nonnegative. Qed.
+Print Assumptions C17_buffer_accepts_nonnegative.
+
+Theorem C17_buffer_chain_rejects : forall amts e,
+  (exists p, In p amts /\ (fst p < 0 \/ snd p < 0)) <-> buffer_chain e amts = inl ValueError.
+Proof. exact buffer_chain_rejects. Qed.
+Print Assumptions C17_buffer_chain_rejects.
